@@ -11,6 +11,27 @@ NOTES = "All checks are bounded-exhaustive model checking of the real Go code (h
 NOT_APPLICABLE = {}
 
 TEXT = {
+    "C01": dict(
+        engine="graph (E2)",
+        design_ref="DESIGN.md §3 C01",
+        technique="explicit-state search of the real allocator (held-set graph to a fixed point) under bounded-exhaustive enumeration of boot configurations",
+        text="For every memory map built from the shape alphabet (<=2 regions quick, 3 in thorough; unaligned, sub-page, reserved and unknown types), every kernel placement and every early-allocation pattern, the real pmm.Init is run on a real multiboot block and then every reachable ownership state of the bitmap allocator is visited by BFS (snapshot/restore of the complete allocator state); in every state each frame returned by AllocFrame must be in the reference usable set and not held. Word-boundary pools (1,63,64,65,128,129 frames) are drained and probed with single and pairwise frees.",
+        note="Frame numbers are only bookkeeping (never dereferenced); region sizes beyond the alphabet and maps with more than 3 regions are not explored; concurrency is C09.",
+    ),
+    "C02": dict(
+        engine="choice (E1)",
+        design_ref="DESIGN.md §3 C02",
+        technique="bounded-exhaustive enumeration of boot configurations; each drives the real early allocator to exhaustion and replays every prefix",
+        text="Every memory map of up to 4 regions from the shape alphabet and every kernel placement is run through the real BootMemAllocator until out-of-memory; each returned frame is compared with a reference computed by plain integer arithmetic (inside available RAM, outside the kernel, strictly ascending), OOM must be sticky and well-formed, and the hand-over replay of every prefix length must reproduce the sequence.",
+        note="Only 'no qualifying frame => OOM' is asserted for the OOM clause; early OOM with frames left is within the statement (DESIGN.md C02).",
+    ),
+    "C03": dict(
+        engine="graph (E2)",
+        design_ref="DESIGN.md §3 C03",
+        technique="same explicit-state search as C01 with accounting and error-contract oracles in every state",
+        text="Over the same configurations and reachable allocator states as C01: Init may only succeed or report out-of-memory (a panic is a violation); exactly |usable| allocations succeed; totalPages/reservedPages/pool free counts equal the reference in every state; FreeFrame of an unmanaged or free frame returns the right error and leaves the state bit-identical; FreeFrame of a held frame leads to exactly the state in which that frame is allocatable again.",
+        note="Frees of kernel-image / early-boot frames (reserved but never handed out) are outside the alphabet.",
+    ),
     "C07": dict(
         engine="graph (E2)",
         design_ref="DESIGN.md §3 C07",
